@@ -12,6 +12,8 @@ import random
 
 from scen import Scn
 import scenario_common as sc
+import mcrapid
+import forced
 
 PHASES = ["ext-preregister", "ext-prenext", "rt-prenext", "rt-preresponse", "rt-prepoll", "ext-postevent"]
 
@@ -107,6 +109,10 @@ def race_scenarios(ctx):
 
 def run(ctx):
     ctx.level = "model_checking"
+    # E1: the property predicates as invariants of the composite (spec/MC_Rapid.tla)
+    mcrapid.check(ctx, ['NoGhostInvoke', 'NoCrash'])
+    # forced schedules through the pause points of /repo (-tags verif)
+    sc.run_families(ctx, forced.scenarios('c05', ('ghost-invoke', 'clear-vs-invoke')), "forced-schedule")
     ctx.assumptions += sc.ASSUME + ["race sweep: offsets of the response relative to the expiry are sampled, not enumerated"]
     sc.run_families(ctx, scenarios(ctx), "stall")
     sc.run_families(ctx, race_scenarios(ctx), "race")
